@@ -412,3 +412,22 @@ impl Args {
         }
     }
 }
+
+/// Silence the default panic message for expected panics; a panic that escapes every
+/// catch_unwind (harness bug) is still reported, with its location, before the process dies.
+pub fn quiet_panics() {
+    if std::env::var("VERIF_PANIC_VERBOSE").is_ok() {
+        return;
+    }
+    std::panic::set_hook(Box::new(|info| {
+        LAST_PANIC.with(|l| {
+            *l.borrow_mut() = format!("{}", info);
+        });
+    }));
+}
+thread_local! {
+    pub static LAST_PANIC: std::cell::RefCell<String> = std::cell::RefCell::new(String::new());
+}
+pub fn last_panic() -> String {
+    LAST_PANIC.with(|l| l.borrow().clone())
+}
